@@ -68,6 +68,11 @@ func (streamBytes) AsString() (string, error) {
 	return mixins.Bytes{TypeName: "bytes"}.AsString()
 }
 func (n streamBytes) AsBytes() ([]byte, error) {
+	// The one reader is shared by every read of this node: always start from the beginning,
+	// so that a second read returns the content again rather than whatever is left.
+	if _, err := n.Seek(0, io.SeekStart); err != nil {
+		return nil, err
+	}
 	return io.ReadAll(n)
 }
 func (streamBytes) AsLink() (datamodel.Link, error) {
@@ -77,5 +82,8 @@ func (streamBytes) Prototype() datamodel.NodePrototype {
 	return Prototype__Bytes{}
 }
 func (n streamBytes) AsLargeBytes() (io.ReadSeeker, error) {
+	if _, err := n.Seek(0, io.SeekStart); err != nil {
+		return nil, err
+	}
 	return n.ReadSeeker, nil
 }
